@@ -788,7 +788,7 @@ class Tensor(object):
 
         return tn.cross(
             function=lambda x, y: x**y,
-            tensors=[self, tn.full_like(self, fill_value=power)],
+            tensors=[self, tn.full_like(self, fill_value=other)],
             verbose=False,
         )
 
